@@ -11,6 +11,7 @@ import (
 	"math"
 	"os"
 	"reflect"
+	"sort"
 	"strconv"
 	"strings"
 
@@ -180,6 +181,13 @@ func Reach(label string) {}
 
 // Unwind overrides the loop bound for the rest of the path (engine only).
 func Unwind(k int) {}
+
+// SortStrings sorts concrete strings in place (a cheap intrinsic for the engine).
+func SortStrings(s []string) { sort.Strings(s) }
+
+// IgnorePanics: run-time panics of the code under test are not obligations of this harness (they belong to
+// C01/C08); the path is constrained to the non-panicking executions instead.
+func IgnorePanics() {}
 
 // Observe exposes a value for translator validation (concolic cross-check).
 func Observe(label string, v interface{}) {
